@@ -263,7 +263,7 @@ func cmdCheck(args []string) int {
 	samples := []map[string]interface{}{}
 	unclaimed := []string{}
 	var violations []OblResult
-	var knownHits []string
+	knownHits := []string{}
 	seen := map[string]bool{}
 	knownFail := map[int]int{}
 	sort.SliceStable(res, func(i, j int) bool { return res[i].O.Name < res[j].O.Name })
